@@ -111,6 +111,7 @@ class C21(core.Prop):
     drivers = ["s4u_model"]
     sizes = {"quick": 1000, "thorough": 30000}
     max_workers = 6
+    ready = True
     technique = ("property-based testing (Hypothesis): generated concurrent workloads sampled at every time advance; conservation and capacity "
                  "validity predicates over the sampled trajectories, closed form for k equal executions")
     rule = ("Generated workloads on flat platforms with real sharing (vf/platgen.py: 1-3 hosts of 1-4 cores, shared / fat-pipe / split-duplex links, "
